@@ -146,9 +146,7 @@ func (e *Env) CheckRange(k Call, o *ListObs, truth []string, height, count uint6
 		c.Failf(keyCount, "%s: count=%d, the ledger holds %d", k, o.Count, wantCount)
 	}
 	if len(o.IDs) > int(limit) {
-		if c.Failf(keyCap, "%s returned %d elements, advertised limit is %d", k, len(o.IDs), limit) {
-			c.Class("known-page-cap-hit")
-		}
+		c.Failf(keyCapOther, "%s returned %d elements, advertised limit is %d", k, len(o.IDs), limit)
 	}
 	want := truth[lo:hi]
 	if sameIDs(o.IDs, want) {
@@ -448,7 +446,7 @@ func mUnreceived(e *Env) {
 			c.Failf(keyCount, "%s: count=%d, the ledger holds %d unreceived sends (+%d whose receive is pooled)", k, o.Count, len(must), len(optional))
 		}
 		if len(o.IDs) > unreceivedMaxPageSize || (size <= unreceivedMaxPageSize && len(o.IDs) > int(size)) {
-			c.Failf(keyCap, "%s returned %d elements", k, len(o.IDs))
+			c.Failf(keyCapOther, "%s returned %d elements", k, len(o.IDs))
 		}
 		for _, raw := range o.Elems {
 			var b api.AccountBlock
@@ -1253,7 +1251,9 @@ func walkLedger(e *Env) {
 		}
 	case 1:
 		ref = reversed(momentumIDs(v.Momentums))
-		call = func(i, s uint32) Call { return Call{"ledger", v.Apis.Ledger, "GetMomentumsByPage", []interface{}{i, s}} }
+		call = func(i, s uint32) Call {
+			return Call{"ledger", v.Apis.Ledger, "GetMomentumsByPage", []interface{}{i, s}}
+		}
 	case 2:
 		addr := e.Addr("lwalk.addr")
 		ref = blockIDs(v.PooledOf(addr))
@@ -1420,6 +1420,10 @@ func TestC18PageCap(t *testing.T) {
 		v := HugeView(t)
 		c.Class("world-huge")
 		e := &Env{C: c, V: v, ViaServerToo: c.Weighted("via-server", 4, 1) == 1}
+		if c.Weighted("cap.family", 3, 2) == 1 {
+			capLedger(e)
+			return
+		}
 		m := big[c.Pick("method", len(big))]
 		c.Class("m-" + m.name)
 		prefix := m.prefix(e)
@@ -1454,4 +1458,71 @@ func TestC18PageCap(t *testing.T) {
 		o := e.ParseList(k, a, m.id)
 		e.CheckPage(k, o, PageSpec{Truth: ref, Ordered: true, WantCount: int64(n), Limit: m.limit, Index: idx, Size: size})
 	})
+}
+
+// capLedger asks the ledger's paged methods about chains longer than the advertised limits.
+func capLedger(e *Env) {
+	c, v := e.C, e.V
+	long := []types.Address{v.Busy, types.AcceleratorContract, types.BridgeContract}
+	addr := long[c.Pick("capl.addr", len(long))]
+	n := len(v.L.Blocks[addr])
+	nm := len(v.Momentums)
+	around := func(label string, total int) uint64 {
+		switch c.Weighted(label+".k", 3, 2, 1) {
+		case 0:
+			return uint64(api.RpcMaxCountSize + c.Int(label+".limit", -1, 2))
+		case 1:
+			return uint64(clampInt(total+c.Int(label+".n", -2, 2), 0, math.MaxInt32))
+		default:
+			return u64Bounds[c.Pick(label+".b", len(u64Bounds))]
+		}
+	}
+	var k Call
+	var truth []string
+	var byHeight bool
+	var h, cnt uint64
+	id := idField("hash")
+	switch c.Pick("capl.method", 5) {
+	case 0:
+		h, cnt, byHeight = uint64(c.Int("capl.h", 1, 3)), around("capl.cnt", n), true
+		k, truth = Call{"ledger", v.Apis.Ledger, "GetAccountBlocksByHeight", []interface{}{addr, h, cnt}}, blockIDs(v.L.Blocks[addr])
+	case 1:
+		cnt = around("capl.size", n)
+		k, truth = Call{"ledger", v.Apis.Ledger, "GetAccountBlocksByPage", []interface{}{addr, uint32(0), uint32(cnt)}}, reversed(blockIDs(v.L.Blocks[addr]))
+	case 2:
+		h, cnt, byHeight = uint64(c.Int("capl.mh", 1, 3)), around("capl.mcnt", nm), true
+		k, truth = Call{"ledger", v.Apis.Ledger, "GetMomentumsByHeight", []interface{}{h, cnt}}, momentumIDs(v.Momentums)
+	case 3:
+		cnt = around("capl.msize", nm)
+		k, truth = Call{"ledger", v.Apis.Ledger, "GetMomentumsByPage", []interface{}{uint32(0), uint32(cnt)}}, reversed(momentumIDs(v.Momentums))
+	default:
+		h, cnt, byHeight = uint64(c.Int("capl.dh", 1, 3)), around("capl.dcnt", nm), true
+		k, truth = Call{"ledger", v.Apis.Ledger, "GetDetailedMomentumsByHeight", []interface{}{h, cnt}}, momentumIDs(v.Momentums)
+		id = func(raw json.RawMessage) (string, error) {
+			var d struct {
+				Momentum json.RawMessage `json:"momentum"`
+			}
+			if err := json.Unmarshal(raw, &d); err != nil {
+				return "", err
+			}
+			return idField("hash")(d.Momentum)
+		}
+	}
+	c.Class("m-ledger." + k.Method)
+	c.Note("%s on %s (list of %d)", k, v.Name, len(truth))
+	if len(truth) > api.RpcMaxCountSize && cnt > api.RpcMaxCountSize {
+		c.NonTrivial()
+		c.Class("asks-for-more-than-the-limit-of-a-longer-list")
+	}
+	a := e.Do(k)
+	if a.Err != "" {
+		e.ErrOK(k, a, cnt > api.RpcMaxCountSize)
+		return
+	}
+	o := e.ParseList(k, a, id)
+	if byHeight {
+		e.CheckRange(k, o, truth, h, cnt, int64(len(truth)), api.RpcMaxCountSize)
+	} else {
+		e.CheckPage(k, o, PageSpec{Truth: truth, Ordered: true, WantCount: int64(len(truth)), Limit: api.RpcMaxPageSize, Index: 0, Size: uint32(cnt)})
+	}
 }
